@@ -6,8 +6,16 @@ package main
 
 import (
 	"bytes"
+	"encoding/json"
 	"fmt"
+	"go/types"
+	"io"
+	"os"
+	"os/exec"
+	"reflect"
+	"sort"
 	"strconv"
+	"strings"
 	"sync"
 
 	"github.com/dave/jennifer/jen"
@@ -120,10 +128,131 @@ func cmdConcSched(args []string) {
 // ---- (ii) orders of rendering Files that share statements ----
 
 type orderFileSpec struct {
-	local, prefix string
-	dots          []string
-	alias         map[string]string
-	own           []string
+	Local  string            `json:"local"`
+	Prefix string            `json:"prefix"`
+	Dots   []string          `json:"dots"`
+	Alias  map[string]string `json:"alias"`
+	Own    []string          `json:"own"`
+	Idents []string          `json:"idents"` // predeclared-identifier helpers (Rune, String, ...) this File chains onto / uses as operands
+}
+
+// orderRound is one round of the orders experiment: Files that share statements (serialisable, so that a fresh process
+// can build one File of it alone).
+type orderRound struct {
+	Specs       []orderFileSpec `json:"specs"`
+	SharedPaths [][]string      `json:"shared"`
+	CaseBlock   bool            `json:"caseblock"`
+	FuncForms   bool            `json:"funcforms"` // shared statements are built through ...Func variants
+}
+
+// identHelpers: the package functions of the tree under test that name a predeclared identifier (Bool(), String(), Err() ...)
+func identHelpers() []string {
+	out := []string{}
+	for n, f := range pkgFuncs {
+		t := reflect.TypeOf(f)
+		if t.NumIn() == 0 && t.NumOut() == 1 && types.Universe.Lookup(strings.ToLower(n[:1])+n[1:]) != nil {
+			out = append(out, n)
+		}
+	}
+	sort.Strings(out)
+	return out
+}
+
+func callHelper(n string) *jen.Statement {
+	return reflect.ValueOf(pkgFuncs[n]).Call(nil)[0].Interface().(*jen.Statement)
+}
+
+// build: shared statements are the SAME objects in every File of one build
+func (rd *orderRound) build(which []int) []*jen.File {
+	shared := []*jen.Statement{}
+	for s, ps := range rd.SharedPaths {
+		vals := []jen.Code{}
+		for k, p := range ps {
+			vals = append(vals, jen.Qual(p, "Sh"+strconv.Itoa(s)+strconv.Itoa(k)))
+		}
+		var st *jen.Statement
+		if rd.FuncForms {
+			st = jen.Var().Id("_").Op("=").Index().Id("T").ValuesFunc(func(g *jen.Group) {
+				for _, v := range vals {
+					g.Add(v)
+				}
+			})
+		} else {
+			st = jen.Var().Id("_").Op("=").Index().Id("T").Values(vals...)
+		}
+		shared = append(shared, st)
+	}
+	if rd.CaseBlock {
+		shared = append(shared, jen.Func().Id("sw").Params().Block(jen.Switch().Block(jen.Default().Block(), jen.Case(jen.Lit(1)).Block(jen.Qual("x/d", "InCase")))))
+	}
+	files := []*jen.File{}
+	for _, i := range which {
+		sp := rd.Specs[i]
+		var f *jen.File
+		if sp.Local != "" {
+			f = jen.NewFilePathName(sp.Local, "main")
+		} else {
+			f = jen.NewFile("main")
+		}
+		f.PackagePrefix = sp.Prefix
+		f.NoFormat = true
+		for _, d := range sp.Dots {
+			f.ImportAlias(d, ".")
+		}
+		ks := []string{}
+		for p := range sp.Alias {
+			ks = append(ks, p)
+		}
+		sort.Strings(ks)
+		for _, p := range ks {
+			f.ImportAlias(p, sp.Alias[p])
+		}
+		for k, p := range sp.Own {
+			f.Var().Id("_").Op("=").Qual(p, "Own"+strconv.Itoa(k))
+		}
+		// predeclared identifiers through their helper functions: chained onto, and as operands of other constructs
+		for k, h := range sp.Idents {
+			if k%2 == 0 {
+				f.Var().Id("c" + strconv.Itoa(k)).Op("=").Add(callHelper(h).Parens(jen.Id("v")))
+			} else {
+				f.Var().Id("m" + strconv.Itoa(k)).Map(callHelper(h)).Add(callHelper(sp.Idents[k-1]))
+			}
+		}
+		for _, st := range shared {
+			f.Add(st)
+		}
+		files = append(files, f)
+	}
+	return files
+}
+
+// freshSolo renders File i of the round alone in a NEW process: nothing any other File did can have influenced it.
+func freshSolo(rd *orderRound, i int) renderResult {
+	b, _ := json.Marshal(rd)
+	cmd := exec.Command(os.Args[0], "conc-solo", strconv.Itoa(i))
+	cmd.Stdin = bytes.NewReader(b)
+	cmd.Env = os.Environ()
+	out, err := cmd.Output()
+	if err != nil {
+		fatal("conc-solo failed: " + err.Error())
+	}
+	var r struct{ Status, Out string }
+	if err := json.Unmarshal(out, &r); err != nil {
+		fatal(err)
+	}
+	return renderResult{status: r.Status, out: []byte(r.Out)}
+}
+
+func cmdConcSolo(args []string) {
+	i, _ := strconv.Atoi(args[0])
+	var rd orderRound
+	in, _ := io.ReadAll(os.Stdin)
+	if err := json.Unmarshal(in, &rd); err != nil {
+		fatal(err)
+	}
+	r := renderFile(rd.build([]int{i})[0])
+	b, _ := json.Marshal(struct{ Status, Out string }{r.status, string(r.out)})
+	os.Stdout.Write(b)
 }
 
 func permutations(n int) [][]int {
@@ -146,82 +275,48 @@ func cmdConcOrders(args []string) {
 	rounds, _ := strconv.Atoi(args[2])
 	r := newRand(31337)
 	id := 0
+	helpers := identHelpers()
 	for round := 0; round < rounds; round++ {
 		nfiles := 3 + r.Intn(2)
-		specs := []orderFileSpec{}
+		rd := &orderRound{CaseBlock: r.Intn(2) == 0, FuncForms: round%2 == 1}
 		pool := []string{"x/d", "y/d", "fmt", "loc/al", "dot/p", "z/d"}
 		for i := 0; i < nfiles; i++ {
-			sp := orderFileSpec{alias: map[string]string{}}
-			sp.prefix = []string{"", "pkg", "p2"}[r.Intn(3)]
+			sp := orderFileSpec{Alias: map[string]string{}, Dots: []string{}, Own: []string{}, Idents: []string{}}
+			sp.Prefix = []string{"", "pkg", "p2"}[r.Intn(3)]
 			if r.Intn(3) == 0 {
-				sp.local = pool[r.Intn(len(pool))]
+				sp.Local = pool[r.Intn(len(pool))]
 			}
 			if r.Intn(3) == 0 {
-				sp.dots = append(sp.dots, pool[r.Intn(len(pool))])
+				sp.Dots = append(sp.Dots, pool[r.Intn(len(pool))])
 			}
 			if r.Intn(3) == 0 {
-				sp.alias[pool[r.Intn(len(pool))]] = []string{"d", "q", "fmt"}[r.Intn(3)]
+				sp.Alias[pool[r.Intn(len(pool))]] = []string{"d", "q", "fmt"}[r.Intn(3)]
 			}
 			for k := 0; k < r.Intn(3); k++ {
-				sp.own = append(sp.own, pool[r.Intn(len(pool))])
+				sp.Own = append(sp.Own, pool[r.Intn(len(pool))])
 			}
-			specs = append(specs, sp)
+			if len(helpers) > 0 && r.Intn(2) == 0 {
+				// a run of neighbouring helpers (they are generated next to each other) and a few random ones
+				at := r.Intn(len(helpers))
+				for k := 0; k < 2+r.Intn(4); k++ {
+					sp.Idents = append(sp.Idents, helpers[(at+k)%len(helpers)])
+				}
+			}
+			rd.Specs = append(rd.Specs, sp)
 		}
-		nshared := 1 + r.Intn(3)
-		sharedPaths := [][]string{}
-		for s := 0; s < nshared; s++ {
+		for s := 0; s < 1+r.Intn(3); s++ {
 			ps := []string{}
 			for k := 0; k < 1+r.Intn(3); k++ {
 				ps = append(ps, pool[r.Intn(len(pool))])
 			}
-			sharedPaths = append(sharedPaths, ps)
+			rd.SharedPaths = append(rd.SharedPaths, ps)
 		}
-		caseBlock := r.Intn(2) == 0
-		// build: shared statements are the SAME objects in every File of one build
-		build := func(which []int) []*jen.File {
-			shared := []*jen.Statement{}
-			for s, ps := range sharedPaths {
-				vals := []jen.Code{}
-				for k, p := range ps {
-					vals = append(vals, jen.Qual(p, "Sh"+strconv.Itoa(s)+strconv.Itoa(k)))
-				}
-				st := jen.Var().Id("_").Op("=").Index().Id("T").Values(vals...)
-				shared = append(shared, st)
-			}
-			if caseBlock {
-				shared = append(shared, jen.Func().Id("sw").Params().Block(jen.Switch().Block(jen.Default().Block(), jen.Case(jen.Lit(1)).Block(jen.Qual("x/d", "InCase")))))
-			}
-			files := []*jen.File{}
-			for _, i := range which {
-				sp := specs[i]
-				var f *jen.File
-				if sp.local != "" {
-					f = jen.NewFilePathName(sp.local, "main")
-				} else {
-					f = jen.NewFile("main")
-				}
-				f.PackagePrefix = sp.prefix
-				f.NoFormat = true
-				for _, d := range sp.dots {
-					f.ImportAlias(d, ".")
-				}
-				for p, a := range sp.alias {
-					f.ImportAlias(p, a)
-				}
-				for k, p := range sp.own {
-					f.Var().Id("_").Op("=").Qual(p, "Own"+strconv.Itoa(k))
-				}
-				for _, st := range shared {
-					f.Add(st)
-				}
-				files = append(files, f)
-			}
-			return files
-		}
+		// the reference for every File: built and rendered alone - in this process, and in a fresh process
 		solo := []renderResult{}
 		for i := 0; i < nfiles; i++ {
-			solo = append(solo, renderFile(build([]int{i})[0]))
+			solo = append(solo, freshSolo(rd, i))
 		}
+		tw.Stats["fresh_process_solo_renders"] += nfiles
 		for _, perm := range permutations(nfiles) {
 			id++
 			tw.Traces++
@@ -229,7 +324,7 @@ func cmdConcOrders(args []string) {
 			for i := 0; i < nfiles; i++ {
 				all = append(all, i)
 			}
-			files := build(all)
+			files := rd.build(all)
 			got := make([]renderResult, nfiles)
 			for _, i := range perm {
 				got[i] = renderFile(files[i])
@@ -241,7 +336,7 @@ func cmdConcOrders(args []string) {
 			tw.Distinct("orders", fmt.Sprint(round, perm))
 		}
 		if round < 2 {
-			tw.Sample(Rec{"files": nfiles, "shared_statements": sharedPaths, "file1_solo": string(solo[0].out)})
+			tw.Sample(Rec{"files": nfiles, "shared_statements": rd.SharedPaths, "file1_solo": string(solo[0].out)})
 		}
 	}
 	tw.Close(args[1])
